@@ -25,7 +25,10 @@ class LoopInv:
     decreases: optional variant function (int), proved to decrease and stay >= 0
     """
 
-    def __init__(self, inv, vars=None, index="i", decreases=None, modifies=None, seq=None, step=None, inductive=False):
+    def __init__(self, inv, vars=None, index="i", decreases=None, modifies=None, seq=None, step=None, inductive=False, hints=None):
+        # hints: clauses about ONE arbitrary iteration (same namespace as `step`) that are proved, in order, BEFORE the
+        # invariant is re-established and may then be used for it (intermediate assertions of the proof)
+        self.hints = [] if hints is None else (hints if isinstance(hints, (list, tuple)) else [hints])
         # inductive=True: also a loop over a CONCRETE list/tuple is checked by invariant (init, one arbitrary
         # position chosen among all positions, exit) instead of being unrolled - linear instead of exponential
         # in the number of independent branches in the body
